@@ -97,6 +97,9 @@ def stepLine (st : Option DState) (line : String) : Option DState × String :=
     | some (ans, some (b, src, P)) => (some { s := { b := b }, a := AState.init src, P := P }, ans) -- round4-open
     | some (ans, none) => (none, ans) -- round4-open
     | none => (st, "bad-op") -- round4-open
+  else if ws.head? == some "checkstable" then
+    -- harness-side probe (reads through the pointers handed out under the stable anchor); nothing to do on the model
+    (st, "ok")
   else if ws.head? == some "openfail" then
     -- documented failures of the openers (constant answers; see h_buffer.c)
     match arg? ws "kind" with
